@@ -94,7 +94,7 @@ def _line_of(src, off):
 
 
 class Weaver:
-    def __init__(self, unit_path, repo=REPO, canary=False, cfg=None):
+    def __init__(self, unit_path, repo=REPO, canary=False, cfg=None, inline_helpers=None):
         self.unit_path = unit_path
         self.unit = os.path.splitext(os.path.basename(unit_path))[0]
         self.repo = repo
@@ -106,6 +106,7 @@ class Weaver:
         self.dropped = []       # E3 report
         self.rules = []         # R1 / E6 applications
         self.assumptions = []   # external_body / assume_specification / uninterp occurrences
+        self.inline_helpers = set(inline_helpers or [])
         self._src_cache = {}
         # `//@cfg-bodies` anywhere in the unit: #[cfg(..)] inside extracted text is evaluated (rule E3 applied to bodies)
         self.cfg_bodies = '//@cfg-bodies' in open(unit_path).read()
@@ -212,6 +213,23 @@ class Weaver:
         it = self.locate(rel, path)
         if it.kind != 'fn' or it.body is None:
             raise AnchorLost('%s :: %s is not a function with a body' % (rel, path))
+        # rule R2: private helpers that the unit does not know (named by a previous "cannot find function" of Verus) are
+        # inlined at their call sites when they cannot leave early; the rewritten text replaces the file in the cache
+        for hname in sorted(self.inline_helpers):
+            if hname == it.name:
+                continue
+            cands = [f for f in rs.all_fns(s, m) if f.name == hname]
+            if len(cands) != 1:
+                continue
+            try:
+                s2, ncalls = rs.inline_helper(s, it, cands[0])
+            except rs.ScanError as e:
+                self.rules.append({'rule': 'R2 helper inlining REFUSED: %s' % e, 'fn': it.name, 'loop': 0})
+                continue
+            self._src_cache[rel] = (s2, rs.mask(s2))
+            s, m = self._src_cache[rel]
+            it = self.locate(rel, path)
+            self.rules.append({'rule': 'R2 helper inlining: %d call(s) of %s replaced by a block binding its parameters around its body' % (ncalls, hname), 'fn': it.name, 'loop': 0})
         raw = s[it.start:it.end]
         fname = d.get('as') or it.name
         info = FnInfo(fname, path, rel, _line_of(s, it.start), hashlib.sha256(raw.encode()).hexdigest()[:16])
